@@ -165,6 +165,10 @@ impl<SVC: Service> CloudServer<SVC> {
 
     /// Generate a random integer in (0..255) for use in probabalistic decisions.
     fn randint(&self) -> Result<u8> {
+        #[cfg(gothenburgbitfactory_taskchampion_verif)]
+        if let Some(v) = crate::server::verif::randint_override() {
+            return Ok(v);
+        }
         use rand::SecureRandom;
         let mut randint = [0u8];
         rand::SystemRandom::new()
@@ -375,6 +379,11 @@ impl<SVC: Service> CloudServer<SVC> {
     }
 
     /// Determine the snapshot version and filename.
+    #[cfg(gothenburgbitfactory_taskchampion_verif)]
+    pub(in crate::server) async fn verif_cleanup(&mut self) -> Result<()> {
+        self.cleanup().await
+    }
+
     async fn snapshot_info(&mut self) -> Result<Option<(VersionId, String)>> {
         // Pick the first snapshot we find.
         let Some(name) = self.service.list("s-").await.next().await else {
